@@ -39,6 +39,7 @@ def doc_classes(spec: Any, exp: ref.Expectation) -> list:
 class C01(Check):
     pid = 'C01'
     level = 'exploration'
+    fuzz_seconds = 120   # thorough tier: extra Atheris campaign
     quick_examples = 4000
     thorough_examples = 60000
     rule = (
